@@ -71,6 +71,8 @@ class Rec(BaseHandler):
     def __init__(self):
         BaseHandler.__init__(self)
         self.log = []
+        self.fail = {}
+        self.ncalls = {}
 
     def init(self):
         pass
@@ -89,6 +91,10 @@ def _mk(name):
         elif name == 'route_refresh_received':
             payload = [a[1] if len(a) > 1 else k.get('msg'), a[2] if len(a) > 2 else k.get('msg_type')]
         self.log.append((name, payload))
+        # fault injection: the application's callback fails on chosen calls (a full disk, a bug in the handler)
+        n = self.ncalls[name] = self.ncalls.get(name, 0) + 1
+        if n in self.fail.get(name, ()):
+            raise OSError(28, 'No space left on device')
     return cb
 
 
@@ -113,6 +119,7 @@ class World(object):
         W.reset()
         W.local_hosts = c.get('hosts')                 # what getHost() reports, per connection (C05)
         W.sockopt_fail = c.get('sockopt_fail')         # connections whose TCP-MD5 socket option call fails (C12)
+        W.nodelay_fail = c.get('nodelay_fail')         # connections whose TCP_NODELAY socket option call fails (C12)
         args = ['--bgp-local_as=%d' % c['las'], '--bgp-remote_as=%d' % c['ras'],
                 '--bgp-remote_addr=' + PEER, '--bgp-local_addr=' + LOCAL,
                 '--time-connect_retry_time=%d' % c['crt'], '--time-hold_time=%d' % c['hold'],
@@ -147,6 +154,7 @@ class World(object):
             self.h = DefaultHandler()
         else:
             self.h = Rec()
+            self.h.fail = {k: set(v) for k, v in (c.get('handler_fail') or {}).items()}
         yagent.prepare_twisted_service(self.h)          # real start-up path; reactor.run() is a no-op
         self.p = CONF.bgp.running_config['factory']
         self.boot_call = [dc for dc in W.calls if dc.active()][-1]
@@ -216,7 +224,7 @@ class World(object):
             if caps is None:
                 caps = ['mp', 'rr', 'as4']
             asn = ev.get('asn', ras)
-            return wire.open_msg(asn, ev.get('h', 90), caps=caps, version=ev.get('ver', 4),
+            return wire.open_msg(asn, ev.get('h', 90), bgp_id=ev.get('id', 0x0a000002), caps=caps, version=ev.get('ver', 4),
                                  one_param_each=ev.get('each', True))
         if m == 'OPENBADVER':
             return wire.open_msg(ras, 90, version=3)
